@@ -19,6 +19,7 @@ Rule → theorem
   histogram groups: no +Inf, bounds not increasing,  hist_no_inf_partial, hist_bounds_not_increasing_partial,
     counts not cumulative, _count ≠ +Inf bucket        hist_counts_not_cumulative_partial, hist_count_ne_inf_partial
     counts not integral                                count_not_integral
+    bound NaN in any spelling / missing / not a number bucket_bound_nan
   NaN or negative counter-like samples               counter_like_nan, counter_like_negative
   info values ≠ 1                                    info_not_one
   stateset values ∉ {0,1} / without the state label  stateset_bad_value, stateset_no_label
@@ -207,7 +208,12 @@ theorem counter_like_nan (P : Params) (ls : List Line) (h : CounterLikeNaN P ls)
   refine smp_fails P st n t s hh heof hmem (Or.inr ?_)
   refine mem_runChecks_post P n (some t) s (chkNaN P n s) (by simp) ?_
   have : chkNaN P n s = raiseIfM (.ok true) := by
-    simp only [chkNaN, hname, drop_append_left, counterLike_nan suf hsuf, if_true, hv, mathIsNaN, hnan]
+    have hn : nanTest P (some (.flt b)) = .ok true := by
+      unfold nanTest
+      split
+      · simp only [hnan]
+      · simp only [mathIsNaN, hnan]
+    simp only [chkNaN, hname, drop_append_left, counterLike_nan suf hsuf, if_true, hv, hn]
   rw [this]; rfl
 
 example : isError (parseDoc "# TYPE a counter\na_total 1\n# EOF\n") = false := by decide
@@ -291,6 +297,40 @@ theorem count_not_integral (P : Params) (ls : List Line) (h : CountNotIntegral P
 example : isError (parseDoc "# TYPE a histogram\na_bucket{le=\"+Inf\"} 1\na_count 1\na_sum 1\n# EOF\n") = false := by decide
 example : errOf (parseDoc "# TYPE a histogram\na_bucket{le=\"+Inf\"} 0.5\n# EOF\n") = some .valueError := by decide
 example : errOf (parseDoc "# TYPE a summary\na_count 0.5\n# EOF\n") = some .valueError := by decide
+
+/-- a bucket bound that is NaN — however spelled — missing, or not a number is rejected (the numeric NaN test of the
+`le` label, repair 3aca2ff; with the former spelling test `== "NaN"` this theorem fails for `le="nan"`) -/
+theorem bucket_bound_nan (P : Params) (ls : List Line) (h : BucketBoundNaN P ls) : isError (assemble P ls) = true := by
+  obtain ⟨n, t, s, lbls, hb, hname, hmem, hl, hle⟩ := h
+  refine block_of_InBlock P ls n t (smp s) hb ?_
+  intro st hh heof
+  refine smp_fails P st n t s hh heof hmem (Or.inl ?_)
+  refine mem_runChecks_pre P n (some t) s (chkLe P n s) (by simp) ?_
+  have e1 : (n ++ sBucket == s.name) = true := by rw [hname]; simp [sBucket]
+  have hflag : leNaNNumeric = true := by decide
+  simp only [chkLe, e1, if_true, labelsOrAttr, hl, hflag]
+  have e2 : sLe = cs!"le" := rfl
+  rw [e2]
+  cases hg : dictGet lbls cs!"le" with
+  | none =>
+    dsimp only
+    cases P.floatE sNaN with
+    | error e => rfl
+    | ok f => dsimp only; split <;> rfl
+  | some le =>
+    rw [hg] at hle
+    dsimp only at hle ⊢
+    unfold Params.floatE
+    cases hf : P.pyFloat le with
+    | none => rfl
+    | some f =>
+      rw [hf] at hle
+      dsimp only at hle ⊢
+      rw [if_pos hle]; rfl
+
+example : isError (parseDoc "# TYPE a histogram\na_bucket{le=\"1\"} 1\na_bucket{le=\"+Inf\"} 1\n# EOF\n") = false := by decide
+example : errOf (parseDoc "# TYPE a histogram\na_bucket{le=\"NaN\"} 1\na_bucket{le=\"+Inf\"} 1\n# EOF\n") = some .valueError := by decide
+example : errOf (parseDoc "# TYPE a histogram\na_bucket{le=\"1\"} 1\na_bucket{x=\"y\"} 1\na_bucket{le=\"+Inf\"} 1\n# EOF\n") = some .valueError := by decide
 
 /-- an exemplar on a sample that is neither a histogram / gauge-histogram bucket nor a counter total is rejected -/
 theorem exemplar_ineligible (P : Params) (ls : List Line) (h : ExemplarIneligible ls) : isError (assemble P ls) = true := by
